@@ -218,7 +218,14 @@ TryNextBlock:
 
 		i := bytes.Index(line, []byte(": "))
 		if i == -1 {
-			goto TryNextBlock
+			// TrimSpace has removed the space of a header with an
+			// empty value ("Key: ").
+			if len(line) < 2 || line[len(line)-1] != ':' {
+				goto TryNextBlock
+			}
+			lastKey = string(line[:len(line)-1])
+			p.Header[lastKey] = ""
+			continue
 		}
 		lastKey = string(line[:i])
 		p.Header[lastKey] = string(line[i+2:])
